@@ -84,8 +84,17 @@ pub fn table_case(rec: &mut Rec, server_id: &str, prefix: &str, regs: &[(u8, usi
         }
     }
     let mut rng_opt = sample_reqs;
-    for m in 0..3u8 {
-        for u in uris {
+    // the order of the dispatches alternates between tables: method-major (consecutive requests share the method) and
+    // path-major (consecutive requests share the PATH and differ in the method) — a dispatch must not remember anything
+    // of the previous one
+    let path_major = regs.len() % 2 == 1;
+    let order: Vec<(u8, &Vec<u8>)> = if path_major {
+        uris.iter().flat_map(|u| (0..3u8).map(move |m| (m, u))).collect()
+    } else {
+        (0..3u8).flat_map(|m| uris.iter().map(move |u| (m, u))).collect()
+    };
+    {
+        for (m, u) in order {
             if let Some(rng) = rng_opt.as_deref_mut() {
                 if !rng.chance(1, 4) {
                     continue;
